@@ -305,6 +305,16 @@ theorem C20_ids_distinct_without_underscores (a b : CType)
     exact join_injective_of_no_underscore (fun c hc => ⟨(ha c hc).1.1, (ha c hc).2⟩) (fun c hc => ⟨(hb c hc).1.1, (hb c hc).2⟩) h
   exact ⟨hinj, fun h => let ⟨h1, h2, h3⟩ := (tagId_eq_iff a b).mp h; ⟨hinj h1, h2, h3⟩⟩
 
+
+/-- **Ids are unique on a page** when the names are simple (`simpleRun`, decidable): every name component is alphanumeric
+and starts with a letter — in particular has no underscore —, no namespace component is `sidebar` or `array<digits>`, no
+namespace id is one of the page's constant ids, every minor version is below 10, request / response types are not listed,
+and the namespaces and listed types of the tree are pairwise different.  Then all `id`s of the page of the namespace — the
+constant ones, the sidebar twins, the namespace and type entries and every `make_unique` result of the nested entries — are
+pairwise distinct, so a fragment link or a script lookup reaches exactly the intended element.  Each condition is needed:
+the examples below violate one each and have two equal ids. -/
+theorem C20_page_ids_unique (tr : NsD) (h : simpleRun tr = true) : (idsOf (nsPageItems tr)).Nodup := page_ids_nodup tr h
+
 /-! ### Ids in selectors, links as URLs -/
 
 /-- Ids are used by the scripts as `#` + id selectors built by plain concatenation.  For front-end-valid names (components of
@@ -407,6 +417,23 @@ example : (idsOf (nsPageItems collisionRun)).count "r_b_c_D_1_0".toList = 2 ∧
     (idsOf (nsPageItems collisionRun)).count "r_A_1_0".toList = 2 ∧
     (idsOf (nsPageItems collisionRun)).count "r_B_1_10".toList = 2 ∧
     (idsOf (nsPageItems collisionRun)).count "r_x_sidebar".toList = 2 := by decide
+
+
+/-- a run with simple names: nested entries of the same type twice, arrays, a service, several versions -/
+def simpleExampleRun : NsD :=
+  let ct (comps : List String) (M m : Nat) (hps := false) : CType := ⟨comps.map String.toList, M, m, hps⟩
+  let u := Ent.comp (ct ["reg", "U"] 1 2) false []
+  let v := Ent.comp (ct ["reg", "n1", "V"] 1 0) false [u, .arr "reg.U.1.2".toList [u], .arr "saturated uint8".toList []]
+  .node ["reg".toList]
+    [.comp (ct ["reg", "Svc"] 2 0) true
+       [.comp (ct ["reg", "Svc", "Request"] 2 0 true) false [u], .comp (ct ["reg", "Svc", "Response"] 2 0 true) false [v]],
+     u, .comp (ct ["reg", "U"] 1 0) false []]
+    [.node ["reg".toList, "n1".toList] [v] [.node ["reg".toList, "n1".toList, "Deep".toList] [] []]]
+
+example : simpleRun simpleExampleRun = true ∧ (idsOf (nsPageItems simpleExampleRun)).length = 36 := by decide
+
+/-- each collision witness violates the condition -/
+example : simpleRun collisionRun = false ∧ simpleRun (.node ["search".toList] [] []) = false := by decide
 
 /-- a root namespace named like a constant id of the page -/
 example : (idsOf (nsPageItems (.node ["search".toList] [] []))).count "search".toList = 2 := by decide
